@@ -486,8 +486,12 @@ static int ec_edit(char *loc, char *cmd, char *arg, char *txt)
 			return ex_command(pls + 1);
 		return 0;
 	}
-	if (path[0] || !bufs[0].path)
+	if (path[0] || !bufs[0].path) {
+		/* when the list is full the last buffer is dropped */
+		if (!xwa && bufs_modified(bufs_findroom(), "last buffer modified"))
+			return 1;
 		bufs_switch(bufs_open(path));
+	}
 	fd = open(ex_path(), O_RDONLY);
 	if (fd >= 0) {
 		int rd = lbuf_rd(xb, fd, 0, lbuf_len(xb));
